@@ -83,11 +83,81 @@ def alimaskApply (nucleic : Bool) (t : TMsa) (useme : List Bool) : Option TMsa :
     let r := EaselModel.Msa.columnSubset r1.msa useme
     if r.st != .ok || r.exc then none else some r.msa
 
+/-! ## `-p`: masks from posterior probability annotation (`count_postprobs_in_msa`, `mask_based_on_postprobs`) -/
+
+/-- `get_pp_idx` -/
+def ppIdxA (a : TAbc) (c : UInt8) : Option Nat :=
+  if c.toNat < 128 && a.cIsGap c then some 11
+  else if c == 42 then some 10
+  else if 48 ≤ c && c ≤ 57 then some (c.toNat - 48)
+  else none
+
+/-- `esl_FCompare_old(a, b, eslSMALLX1) == eslOK` on finite binary32 arguments -/
+def fcmpOk (a b : Float32) : Bool :=
+  let tol : Float32 := (5e-9 : Float).toFloat32
+  a == b || (a.abs == 0 && b.abs ≤ tol) || (b.abs == 0 && a.abs ≤ tol) ||
+  (2.0 * (a - b).abs.toFloat / (a + b).abs.toFloat ≤ tol.toFloat)
+
+def ppMin : List Float := [0.00, 0.05, 0.15, 0.25, 0.35, 0.45, 0.55, 0.65, 0.75, 0.85, 0.95]
+def ppAvgD : List Float := [0.025, 0.10, 0.20, 0.30, 0.40, 0.50, 0.60, 0.70, 0.80, 0.90, 0.975]
+
+structure PPCfg where
+  pthresh : Float := 0.95
+  pfract : Float := 0.95
+  pavg : Option Float := none
+  ppcons : Option Float := none
+  allgapok : Bool := false
+
+/-- `pp_ct[apos][0..11]` for an eligible column; `none` = the tool stops (a sequence without PP, a character that is no PP value,
+    a PP gap under a residue) -/
+def ppCounts (a : TAbc) (rows : List Bytes) (pp : List (Option Bytes)) (apos : Nat) : Option (List Float) :=
+  (rows.zip pp).foldlM (fun (ct : List Float) (rp : Bytes × Option Bytes) =>
+    match rp.2 with
+    | none => none
+    | some line =>
+      match ppIdxA a (line.getD apos 0) with
+      | none => none
+      | some k =>
+        if k == 11 && !a.cIsGap (rp.1.getD apos 0) then none
+        else some (ct.set k (ct.getD k 0.0 + 1.0))) (List.replicate 12 0.0)
+
+/-- `esl_vec_DSum` -/
+def kahan (v : List Float) : Float :=
+  (v.foldl (fun (st : Float × Float) x => let y := x - st.2; let t := st.1 + y; (t, (t - st.1) - y)) (0.0, 0.0)).1
+
+/-- `mask_based_on_postprobs` -/
+def ppMask (a : TAbc) (cfg : PPCfg) (rows : List Bytes) (pp : List (Option Bytes)) (ppCons : Option Bytes) (alen : Nat) (eligible : List Bool) :
+    Option (List Bool) :=
+  let pthresh := cfg.pthresh.toFloat32
+  let pfract := cfg.pfract.toFloat32
+  -- `ppidx_thresh`: the first class whose lower bound is (float-)equal to or above pthresh, at most 10
+  let idxThresh := ((List.range 10).find? fun k => fcmpOk pthresh (ppMin.getD k 0).toFloat32 || pthresh.toFloat < ppMin.getD k 0).getD 10
+  if cfg.ppcons.isSome && ppCons.isNone then none else
+  (List.range alen).mapM fun apos =>
+    if !eligible.getD apos false then some false else
+    match ppCounts a rows pp apos with
+    | none => none
+    | some ct =>
+      let nnongap := kahan ct - ct.getD 11 0.0
+      if fcmpOk nnongap.toFloat32 0 then some cfg.allgapok
+      else match cfg.pavg, cfg.ppcons with
+        | some pavgMin, _ =>
+          let ppsum := (List.range 11).foldl (fun (acc : Float) k => acc + ct.getD k 0.0 * ppAvgD.getD k 0) 0.0
+          some (!(ppsum / nnongap < pavgMin.toFloat32.toFloat))
+        | none, some cmin =>
+          match ppIdxA a ((ppCons.getD []).getD apos 0) with
+          | none => none
+          | some k => if k != 11 then some (fcmpOk cmin.toFloat32 (ppMin.getD k 0).toFloat32 || ppMin.getD k 0 > cmin.toFloat32.toFloat) else some false
+        | none, none =>
+          let ppcount := ((List.range 11).reverse.filter fun k => k ≥ idxThresh).foldl (fun (acc : Float) k => acc + ct.getD k 0.0) 0.0
+          some (!((ppcount / nnongap).toFloat32 < pfract))
+
 inductive MaskMode where
   | maskfile (mask : List Bool)
   | truncate (st en : Nat) (trf rmins : Bool)
   | gapfreq (thresh : Float32)
   | rfIsMask
+  | postprob                       -- `-p` alone (`-g -p` is `gapfreq` with `pp` set)
 deriving Inhabited
 
 structure AlimaskOpts where
@@ -101,6 +171,9 @@ structure AlimaskOpts where
   fmaskAll : Option String := none
   gmaskRf : Option String := none
   gmaskAll : Option String := none
+  pp : Option PPCfg := none              -- `-p` with its thresholds
+  pmaskRf : Option String := none
+  pmaskAll : Option String := none
 
 def natPad (w : Nat) (n : Nat) : Bytes := let d := natDec n; List.replicate (w - d.length) 32 ++ d
 def strPadL (w : Nat) (s : String) : Bytes := let b := str s; List.replicate (w - b.length) 32 ++ b
@@ -130,7 +203,7 @@ def verboseLine (name : String) (alen : Nat) (rf : Option (List Bool × Nat)) (u
 
 /-- the final mask of `main()`, with the pieces the verbose table and the mask files need:
     `(useme_final, i_am_rf+rflen, do_rfonly, mode name, gap mask)`; `none` = the tool refuses (esl_fatal) -/
-def alimaskMask (o : AlimaskOpts) (m : FMsa) : Option (List Bool × Option (List Bool × Nat) × Bool × String × Option (List Bool)) := do
+def alimaskMask (o : AlimaskOpts) (m : FMsa) : Option (List Bool × Option (List Bool × Nat) × Bool × String × Option (List Bool) × Option (List Bool)) := do
   let alen := m.alen
   let rfInfo : Option (List Bool × Nat) ← match m.rf with
     | some rf =>
@@ -140,16 +213,27 @@ def alimaskMask (o : AlimaskOpts) (m : FMsa) : Option (List Bool × Option (List
   let eligible : List Bool := match rfInfo with
     | some (iam, _) => if o.keepins then List.replicate alen true else iam
     | none => List.replicate alen true
-  if rfInfo.isNone && (o.fmaskRf.isSome || o.gmaskRf.isSome || o.keepins) then none
+  if rfInfo.isNone && (o.fmaskRf.isSome || o.gmaskRf.isSome || o.pmaskRf.isSome || o.keepins) then none
+  let ppOnly := match o.mode with | .postprob => true | _ => false
+  let gp := match o.mode with | .gapfreq _ => true | _ => false
+  if o.pp.isSome && !(ppOnly || gp) then none
+  if (o.pmaskRf.isSome || o.pmaskAll.isSome) && o.pp.isNone then none
+  let rowsT := if m.digital then [] else m.aseq
+  let pmask : Option (List Bool) ← match o.pp with
+    | some cfg =>
+      match m.pp with
+      | none => none
+      | some ppl => (ppMask o.abc cfg rowsT ppl m.ppCons alen eligible).map some
+    | none => some none
   match o.mode with
   | .maskfile mask =>
     if o.keepins || o.gmaskRf.isSome || o.gmaskAll.isSome then none
     match rfInfo with
-    | none => if mask.length != alen then none else some (mask, none, false, "maskfile", none)
+    | none => if mask.length != alen then none else some (mask, none, false, "maskfile", none, none)
     | some (iam, rflen) =>
       if mask.length != alen && mask.length != rflen then none
-      else if rflen == mask.length then some (expandRfUseme mask (rf2aMap iam) alen, rfInfo, true, "maskfile", none)
-      else some (mask, rfInfo, false, "maskfile", none)
+      else if rflen == mask.length then some (expandRfUseme mask (rf2aMap iam) alen, rfInfo, true, "maskfile", none, none)
+      else some (mask, rfInfo, false, "maskfile", none, none)
   | .truncate st en trf rmins =>
     if o.keepins || o.gmaskRf.isSome || o.gmaskAll.isSome then none
     if rmins && rfInfo.isNone then none
@@ -165,16 +249,22 @@ def alimaskMask (o : AlimaskOpts) (m : FMsa) : Option (List Bool × Option (List
       else if st > alen || en > alen then none else some (st, if en == 0 then alen else en)
     let iam := match rfInfo with | some (i, _) => i | none => []
     let useme := if rfonly then ((truncMask alen ts te).zip iam).map (fun p => p.1 && p.2) else truncMask alen ts te
-    some (useme, rfInfo, rfonly, "truncation", none)
+    some (useme, rfInfo, rfonly, "truncation", none, none)
   | .gapfreq th =>
     let rows := if m.digital then [] else m.aseq
     let g := gapMask o.abc rows alen eligible th
-    some (g, rfInfo, rfInfo.isSome && !o.keepins, "gapfreq", some g)
+    match pmask with
+    | some pm => some ((g.zip pm).map fun x => x.1 && x.2, rfInfo, rfInfo.isSome && !o.keepins, "gapfreq&postprobs", some g, some pm)
+    | none => some (g, rfInfo, rfInfo.isSome && !o.keepins, "gapfreq", some g, none)
+  | .postprob =>
+    match pmask with
+    | some pm => some (pm, rfInfo, rfInfo.isSome && !o.keepins, "postprobs", none, some pm)
+    | none => none
   | .rfIsMask =>
     if o.keepins || o.gmaskRf.isSome || o.gmaskAll.isSome then none
     match rfInfo with
     | none => none
-    | some (iam, _) => some (iam, rfInfo, true, "RF", none)
+    | some (iam, _) => some (iam, rfInfo, true, "RF", none, none)
 
 /-- `esl-alimask`: stdout and the files written (`-o`, `--fmask-*`, `--gmask-*`).  The `# CPU time:` line that
     `esl_stopwatch_Display` prints with `-o` is not part of the prediction. -/
@@ -184,26 +274,33 @@ def alimask (o : AlimaskOpts) (infmt : String) (src : Bytes) : Option (Bytes × 
     | (.ok m, _) => some m
     | _ => none
   if m.digital then none
-  let (useme, rfInfo, rfonly, name, gmask) ← alimaskMask o m
+  let (useme, rfInfo, rfonly, name, gmask, pmask) ← alimaskMask o m
   let t' ← alimaskApply o.abc.isNucleic (toT m) useme
   let m' := withColumnsOf m t'
-  let ali ← msafileWrite o.outfmt none m'
+  let ali ← msafileWriteTool o.outfmt none m'
   let rflen := match rfInfo with | some (_, n) => n | none => 0
   let iam := rfInfo.map (·.1)
   let verb := o.verbose
   let table : Bytes :=
     if verb then
       verboseHeader ++ (if name == "RF" then verboseLine "RF" m.alen rfInfo useme true
+                        else if name == "gapfreq&postprobs" then
+                          verboseLine "gapfreq" m.alen rfInfo (gmask.getD []) rfonly ++ verboseLine "postprobs" m.alen rfInfo (pmask.getD []) rfonly
+                          ++ verboseLine name m.alen rfInfo useme rfonly
                         else verboseLine name m.alen rfInfo useme rfonly) ++ str "#\n"
     else []
   let note (s : String) : Bytes := if verb then str s else []
   let files : List (String × Bytes) :=
-    (match o.gmaskRf, gmask with | some f, some g => [(f, maskText g iam)] | _, _ => [])
+    (match o.pmaskRf, pmask with | some f, some g => [(f, maskText g iam)] | _, _ => [])
+    ++ (match o.pmaskAll, pmask with | some f, some g => [(f, maskText g none)] | _, _ => [])
+    ++ (match o.gmaskRf, gmask with | some f, some g => [(f, maskText g iam)] | _, _ => [])
     ++ (match o.gmaskAll, gmask with | some f, some g => [(f, maskText g none)] | _, _ => [])
     ++ (match o.fmaskRf with | some f => [(f, maskText useme iam)] | none => [])
     ++ (match o.fmaskAll with | some f => [(f, maskText useme none)] | none => [])
   let notes : Bytes :=
-    (match o.gmaskRf with | some f => note ("# Gap frequency mask of non-gap RF length (" ++ toString rflen ++ ") saved to file " ++ f ++ ".\n") | none => [])
+    (match o.pmaskRf with | some f => note ("# Posterior probability mask of non-gap RF length (" ++ toString rflen ++ ") saved to file " ++ f ++ ".\n") | none => [])
+    ++ (match o.pmaskAll with | some f => note ("# Posterior probability mask of full alignment length (" ++ toString m.alen ++ ") saved to file " ++ f ++ ".\n") | none => [])
+    ++ (match o.gmaskRf with | some f => note ("# Gap frequency mask of non-gap RF length (" ++ toString rflen ++ ") saved to file " ++ f ++ ".\n") | none => [])
     ++ (match o.gmaskAll with | some f => note ("# Gap frequency mask of full alignment length (" ++ toString m.alen ++ ") saved to file " ++ f ++ ".\n") | none => [])
     ++ (match o.fmaskRf with | some f => note ("# Final mask of non-gap RF length (" ++ toString rflen ++ ") saved to file " ++ f ++ ".\n") | none => [])
     ++ (match o.fmaskAll with | some f => note ("# Final mask of full alignment length (" ++ toString m.alen ++ ") saved to file " ++ f ++ ".\n") | none => [])
